@@ -13,7 +13,8 @@ from ..pools import Pools
 from .common import ref_api, file_of, strip_ansi, tree_files, norm_rel
 from .c04 import parse_stdout
 
-C_NAMES = ["main.c", "a.c", "b.c", "util.h", "a.h", "my file.c", "a.b.c", "x.tar.h", "ft_x.c", "lib ft.h", "z.c", "types.h", "test.c"]
+C_NAMES = ["main.c", "a.c", "b.c", "util.h", "a.h", "my file.c", "a.b.c", "x.tar.h", "ft_x.c", "lib ft.h", "z.c", "types.h", "test.c",
+           "main.copy.c", "a.c.c", "a.h.c", "util.h.h", "a.c (1).c"]
 OTHER_NAMES = ["a.cc", "a.hh", "b.C", "c.H", "d.c.bak", "e.ch", "f.c~", "g.hpp", "c", "h", "Makefile", "README.md", "notes.txt",
                "a.cpp", "x.o", "ac", "a.c.orig", "dotc.", "k.ｃ"]
 DIR_NAMES = ["src", "include", "lib", "sub dir", "v1.2", "d.c", "inc.h", "deep", "x", "objs.o", "a.b", "tests"]
@@ -80,7 +81,7 @@ class Model:
         return out
 
 
-def gen_tree(rng, small_files):
+def gen_tree(rng, small_files, fatal_files=()):
     n_entries = 0
     budget = rng.randrange(3, 26)
 
@@ -95,7 +96,10 @@ def gen_tree(rng, small_files):
             if r < 0.45:
                 nm = C_NAMES[rng.randrange(len(C_NAMES))]
                 if nm not in node:
-                    node[nm] = "@" + small_files[rng.randrange(len(small_files))]
+                    if fatal_files and rng.random() < 0.08:
+                        node[nm] = "@" + fatal_files[rng.randrange(len(fatal_files))]
+                    else:
+                        node[nm] = "@" + small_files[rng.randrange(len(small_files))]
                     n_entries += 1
             elif r < 0.65:
                 nm = OTHER_NAMES[rng.randrange(len(OTHER_NAMES))]
@@ -159,11 +163,20 @@ class C15(Engine):
             if all((not r.get("killed")) and r["ops"][0]["outcome"] == "verdict" and r["ops"][0].get("diags") is not None for r in (a, b)):
                 ok.append(f)
         self.small = ok[:40]
+        # a few contents that are fatally unparsable whatever the name: main() reports them with a fatal line and goes on
+        fat = [f for f in sorted(P.files) if P.cls[f] == "fatal" and len(P.files[f]["content"]) < 2500]
+        scs = []
+        for f in fat:
+            for nm in ("zz.c", "zz.h"):
+                scs.append({"files": {"x": {"name": nm, "content": P.files[f]["content"]}}, "ops": [{"op": "api", "file": "x"}]})
+        rs = self.pool.map(scs)
+        self.fatal = [f for i, f in enumerate(fat) if all((not r.get("killed")) and r["ops"][0]["outcome"] == "fatal" for r in (rs[2 * i], rs[2 * i + 1]))][:10]
+        self.fatal_set = set(self.fatal)
         if len(self.small) < 5:
             raise RuntimeError("too few name-independent non-fatal pool files")
 
     def gen_scenario(self, rng, idx, config):
-        tree = gen_tree(rng, self.small)
+        tree = gen_tree(rng, self.small, self.fatal if config in ("plain", "git") else ())
         paths = all_paths(tree)
         files = [p for p, d in paths if not d]
         dirs = [p for p, d in paths if d]
@@ -323,6 +336,11 @@ class C15(Engine):
                 got[f["basename"]] += 1
         parsed = parse_stdout(o.get("stdout", ""))
         got_text = collections.Counter(n for n, v, fatal in parsed if fatal is None)
+        # a fatally unparsable file is reported by its fatal line (which names its path): that is its verdict
+        for n, v, fatal in parsed:
+            if fatal is not None:
+                got[n.rsplit("/", 1)[-1]] += 1
+                got_text[n.rsplit("/", 1)[-1]] += 1
         if m["abort"]:
             ex = o.get("exit")
             if end == "internal" or (end == "exit" and ex not in (0, None)):
@@ -371,6 +389,9 @@ class C15(Engine):
             else:
                 vs.append(V("C15.a-exactly-the-requested-files", "verdict multiset differs from the model (missing and extra)",
                             missing=sorted(missing.elements())[:6], extra=sorted(extra.elements())[:6]))
+        elif config in ("plain", "git") and self.examined_mismatch(o, sum(want.values())):
+            vs.append(V("C15.a-checked-means-examined", "a file got a verdict line without having been analysed (or was analysed more often than reported)",
+                        examined=len(o.get("files_mon") or []), verdicts=sum(want.values())))
         elif got_text != got:
             vs.append(V("C15.a-reported-under-base-name", "verdict lines on stdout do not name the checked files by base name",
                         lines=sorted(got_text.elements())[:6], files=sorted(got.elements())[:6]))
@@ -380,6 +401,14 @@ class C15(Engine):
                 vs.append(V("C15.b-other-suffix-rejected-with-message", "a named file with another suffix was not rejected with a message", name=name))
                 break
         return vs
+
+    @staticmethod
+    def examined_mismatch(o, n_verdicts):
+        """'Checked' means analysed: one Context per verdict (the conservation monitor counts the Contexts created)."""
+        mon = o.get("files_mon")
+        if mon is None or o.get("end") != "exit":
+            return False
+        return len(mon) != n_verdicts
 
     def observe(self, idx, sc, r):
         o = r["ops"][0]
